@@ -52,6 +52,8 @@ type Mon struct {
 	G *gen.DAG
 
 	stalled int // operations held by a "stall" fault
+	// Omit names the callbacks ("pre", "post", "skipped", "mounted") the caller leaves unset.
+	Omit map[string]bool
 
 	mu          sync.Mutex
 	seq         int64
@@ -606,10 +608,18 @@ func (m *Mon) Hooks(opts *oras.CopyGraphOptions) {
 			return m.at(ctx, op, node)
 		}
 	}
-	opts.PreCopy = cb("pre", "cb.PreCopy")
-	opts.PostCopy = cb("post", "cb.PostCopy")
-	opts.OnCopySkipped = cb("skipped", "cb.OnCopySkipped")
-	opts.OnMounted = cb("mounted", "cb.OnMounted")
+	if !m.Omit["pre"] {
+		opts.PreCopy = cb("pre", "cb.PreCopy")
+	}
+	if !m.Omit["post"] {
+		opts.PostCopy = cb("post", "cb.PostCopy")
+	}
+	if !m.Omit["skipped"] {
+		opts.OnCopySkipped = cb("skipped", "cb.OnCopySkipped")
+	}
+	if !m.Omit["mounted"] {
+		opts.OnMounted = cb("mounted", "cb.OnMounted")
+	}
 }
 
 // ---------------------------------------------------------------- oracles
@@ -764,6 +774,20 @@ func (m *Mon) CheckCallbacks(presentBefore map[int]bool) []string {
 			out = append(out, fmt.Sprintf("callbacks: node %d got %d OnCopySkipped", n, len(s.skipped)))
 		}
 		if s.pushed {
+			wantPre, wantPost := 1, 1
+			if m.Omit["pre"] {
+				wantPre = 0
+			}
+			if m.Omit["post"] {
+				wantPost = 0
+			}
+			if wantPre == 0 || wantPost == 0 {
+				// a callback the caller left unset cannot be observed: only the installed one is counted
+				if len(s.pre) != wantPre || len(s.post) != wantPost {
+					out = append(out, fmt.Sprintf("callbacks: transferred node %d got %d PreCopy and %d PostCopy (installed: pre=%v post=%v)", n, len(s.pre), len(s.post), wantPre == 1, wantPost == 1))
+				}
+				continue
+			}
 			if len(s.pre) != 1 || len(s.post) != 1 {
 				out = append(out, fmt.Sprintf("callbacks: transferred node %d got %d PreCopy and %d PostCopy", n, len(s.pre), len(s.post)))
 				continue
@@ -784,7 +808,7 @@ func (m *Mon) CheckCallbacks(presentBefore map[int]bool) []string {
 		} else if len(s.post) > 0 {
 			out = append(out, fmt.Sprintf("callbacks: node %d got PostCopy without a transfer", n))
 		}
-		if len(s.post) == 1 {
+		if len(s.post) == 1 && len(m.Omit) == 0 {
 			for _, c := range m.G.SuccSet(n) {
 				if t, ok := terminal(c); ok && t > s.post[0] {
 					out = append(out, fmt.Sprintf("callbacks: PostCopy of node %d (seq %d) precedes the terminal notification of its successor %d (seq %d)", n, s.post[0], c, t))
